@@ -1270,7 +1270,7 @@ def fail_events(model: TopoModel):
     for l_ in sorted(model.t.links.keys())[:1]:
         targets.append(('link', l_))
     for tg in targets:
-        for pos in ('first', 'middle', 'last', 'with-name-first', 'with-name-last'):
+        for pos in ('first', 'middle', 'last', 'with-name-first', 'with-name-last', 'unset-then-unset-name'):
             ev.append(('fail', 'setprops-bad-among-good', tg, pos))
     if names:
         n0 = names[0]
@@ -1290,6 +1290,7 @@ def fail_events(model: TopoModel):
                        if raw.typ(x) == 'ServicePort' and raw.owner(x) and not raw.owner(sorted(raw.owner(x))[0])]
                 for svc_name, port_name in sorted(spn)[:1]:
                     ev.append(('fail', 'link-over-service-port', svc_name, port_name, model._pref(free[0])))
+                    ev.append(('fail', 'link-over-service-port', svc_name, port_name, model._pref(free[0]), 'tuple'))
                     ev.append(('fail', 'type-from-service-port', svc_name, port_name))
                     # ... nor by moving between the two kinds of port that never stand alone
                     ev.append(('fail', 'type-service-port-to-sub-interface', svc_name, port_name))
@@ -1577,7 +1578,9 @@ def _do_fail(model: TopoModel, ev):
         bad = ('labels', 'not-a-labels-object')
         # (a new name among the values: the one property that a handle remembers, and that the collections are keyed by)
         new_name = ('name', 'renamed-in-bulk')
-        order = {'first': [bad] + good, 'middle': good[:1] + [bad] + good[1:], 'last': good + [bad],
+        # (None asks for a property to be taken away: the name cannot be, so nothing else may be either)
+        order = {'unset-then-unset-name': [('capacities', None), ('labels', None), ('name', None)],
+                 'first': [bad] + good, 'middle': good[:1] + [bad] + good[1:], 'last': good + [bad],
                  'with-name-first': [new_name] + good + [bad], 'with-name-last': [bad] + good + [new_name]}[pos]
         e.set_properties(**dict(order))
     elif kind == 'facility-duplicate-interface-names':
@@ -1618,7 +1621,8 @@ def _do_fail(model: TopoModel, ev):
         sp.set_properties(type=InterfaceType.TrunkPort)
     elif kind == 'link-over-service-port':
         sp = [i for i in model.service(ev[2]).interface_list if i.name == ev[3]][0]
-        t.add_link(name='lsp', node_id=nid('lsp'), ltype=LinkType.Patch, interfaces=[sp, model.port(*ev[4])])
+        ifs = [sp, model.port(*ev[4])]
+        t.add_link(name='lsp', node_id=nid('lsp'), ltype=LinkType.Patch, interfaces=tuple(reversed(ifs)) if len(ev) > 5 else ifs)
     elif kind == 'service-interfaces-not-a-list':
         if ev[2] == 'number':
             arg = 5
